@@ -58,6 +58,7 @@ inductive Op where
   | recvPollTrailers (key : Nat) (tag : String)
   | refReleaseCapacity (key cap : Nat)
   | refClearRecvBuffer (key : Nat)
+  | refPollPushed (key : Nat) (tag : String)
   -- bookkeeping of the model
   | wake (tags : List String)
   | clearWakes
@@ -106,6 +107,7 @@ def Op.apply (s : Streams) : Op → Streams
   | .recvPollTrailers k t => (s.recvPollTrailers k t).1
   | .refReleaseCapacity k c => (s.refReleaseCapacity k c).1
   | .refClearRecvBuffer k => s.refClearRecvBuffer k
+  | .refPollPushed k t => (s.refPollPushed k t).1
   | .wake t => s.wake t
   | .clearWakes => { s with wakes := [] }
   | .panic m => s.panic m
@@ -183,6 +185,7 @@ theorem Op.step_inv {full : Bool} {g : Ghost} {s : Streams} (h : Inv full g s) (
   | recvPollTrailers k t => exact ext _ (recvPollTrailers_ext s k t)
   | refReleaseCapacity k c => exact inv _ (refReleaseCapacity_inv h k c)
   | refClearRecvBuffer k => exact inv _ (refClearRecvBuffer_inv h k)
+  | refPollPushed k t => exact ext _ (refPollPushed_ext s k t)
   | wake t => exact ext _ (wake_ext s t)
   | clearWakes => exact ext _ (clearWakes_ext s)
   | panic m => exact ext _ (panic_ext s m)
